@@ -7,6 +7,7 @@ import (
 	"os"
 	"sort"
 	"strings"
+	"sync"
 	"time"
 
 	sdkmath "cosmossdk.io/math"
@@ -35,7 +36,9 @@ var (
 	feeCollAddr   = chain.ModuleAddr("fee_collector")
 	lptGrant      = gen.Pow2(104) // liquidity tokens handed to every farmer
 	lptMint       = gen.Pow2(110)
-	rewardDenoms  = []string{"eth", "usdt", "point", "stake"}
+	// reward denoms; ethx/usd are funded only in this package's environment: denoms that are string prefixes of
+	// each other (eth/ethx, usd/usdt) probe prefix-keyed lookups of reward rules
+	rewardDenoms = []string{"eth", "usdt", "point", "ethx", "usd", "stake"}
 	// lcm(1..40): with stakes 1..10 (total <= 40) and rates that are multiples of it every per-share
 	// quotient is an integer, so no truncation happens at all (VERIF_C05_AVOID_F4).
 	lcm40 = gen.BigOf("5342931457063200")
@@ -43,7 +46,7 @@ var (
 
 // fop is one operation (plain data; the op list is the replay file).
 type fop struct {
-	K      string   `json:"k"` // create|stake|unstake|harvest|adjust|destroy|block|epilogue
+	K      string   `json:"k"` // create|burst|stake|unstake|harvest|adjust|destroy|block|epilogue
 	Who    int      `json:"who,omitempty"`
 	Pool   int      `json:"pool,omitempty"`   // index in creation order
 	Amt    string   `json:"amt,omitempty"`    // stake/unstake amount
@@ -54,6 +57,7 @@ type fop struct {
 	Denoms []string `json:"denoms,omitempty"` // create/adjust: reward denoms
 	Rates  []string `json:"rates,omitempty"`  // create: reward per block; adjust: new rate ("" = unchanged)
 	Totals []string `json:"totals,omitempty"` // create: budget; adjust: top-up ("" = none)
+	Sub    []fop    `json:"sub,omitempty"`    // burst: the pool creations executed in this one step
 	Rev    bool     `json:"rev,omitempty"`    // adjust: send the coin lists in descending denom order (VERIF_C05_UNSORTED)
 }
 
@@ -69,6 +73,8 @@ type machine struct {
 	maxRD int
 
 	target int // generator only: pool the next operation must aim at (-1 none)
+	// generator only: many-pools plan
+	planDrawn, burstPlan, bursted bool
 
 	avoidF4, avoidF14, strict, unsorted bool
 
@@ -84,7 +90,7 @@ type machine struct {
 }
 
 func newMachine(prop string) *machine {
-	c := gen.Env().NewCase()
+	c := farmEnv().NewCase()
 	m := &machine{c: c, prop: prop, target: -1, cls: map[string]int{}}
 	m.avoidF4 = os.Getenv("VERIF_C05_AVOID_F4") != ""
 	m.avoidF14 = os.Getenv("VERIF_C05_AVOID_F14") != ""
@@ -92,6 +98,32 @@ func newMachine(prop string) *machine {
 	m.unsorted = os.Getenv("VERIF_C05_UNSORTED") != ""
 	m.prelude()
 	return m
+}
+
+var (
+	envOnce sync.Once
+	envFarm *chain.Env
+)
+
+// farmEnv is the package's own universe: the default one plus whale balances of ethx and usd.
+func farmEnv() *chain.Env {
+	envOnce.Do(func() { envFarm = chain.NewEnv(chain.Options{ExtraDenoms: []string{"ethx", "usd"}}) })
+	return envFarm
+}
+
+// accrue = model accrual plus class bookkeeping: a release on a pool whose id is a strict string prefix of
+// another pool's id (farm-1 once farm-10 exists) is what prefix-keyed store iteration would get wrong.
+func (m *machine) accrue(p *mpool, h int64) (map[string]*big.Int, bool) {
+	rel, short := p.accrue(h)
+	if len(rel) > 0 {
+		for _, q := range m.pools {
+			if q != p && strings.HasPrefix(q.id, p.id) {
+				m.class("release-on-prefix-related-pool")
+				break
+			}
+		}
+	}
+	return rel, short
 }
 
 func newC05() pbt.Machine[fop] { return newMachine("C05") }
@@ -242,6 +274,17 @@ func (m *machine) Apply(o fop) error {
 	switch o.K {
 	case "create":
 		err = m.applyCreate(o)
+	case "burst":
+		// many cheap pools in one step, so that pool ids become string prefixes of each other (farm-1 / farm-10)
+		for _, sub := range o.Sub {
+			if sub.K != "create" {
+				continue
+			}
+			if err = m.applyCreate(sub); err != nil {
+				break
+			}
+		}
+		m.class("burst")
 	case "stake":
 		err = m.applyStake(o)
 	case "unstake":
@@ -373,6 +416,9 @@ func (m *machine) applyCreate(o fop) error {
 	p.end, _ = endFor(start, av, rt)
 	m.pools = append(m.pools, p)
 	m.class("create")
+	if len(m.pools) >= 10 {
+		m.class("pools>=10")
+	}
 	if len(p.rules) > 1 {
 		m.class("multi-denom-pool")
 	}
@@ -435,7 +481,7 @@ func (m *machine) applyStake(o fop) error {
 		return pbt.Failf(m.sig("response"), "unexpected response %T", res.Resp)
 	}
 	m.boundaryClass(p, h)
-	rel, short := p.accrue(h)
+	rel, short := m.accrue(p, h)
 	if short && m.prop == "C06" {
 		return pbt.Failf("C06/budget-short", "pool %s: recorded budget cannot cover the release at h=%d", p.id, h)
 	}
@@ -561,7 +607,7 @@ func (m *machine) applyUnstake(o fop) error {
 	m.boundaryClass(p, h)
 	e := chain.NewExpect()
 	if !p.expired(h) {
-		rel, short := p.accrue(h)
+		rel, short := m.accrue(p, h)
 		if short && m.prop == "C06" {
 			return pbt.Failf("C06/budget-short", "pool %s: recorded budget cannot cover the release at h=%d", p.id, h)
 		}
@@ -635,7 +681,7 @@ func (m *machine) applyHarvest(o fop) error {
 		return pbt.Failf(m.sig("response"), "unexpected response %T", res.Resp)
 	}
 	m.boundaryClass(p, h)
-	rel, short := p.accrue(h)
+	rel, short := m.accrue(p, h)
 	if short && m.prop == "C06" {
 		return pbt.Failf("C06/budget-short", "pool %s: recorded budget cannot cover the release at h=%d", p.id, h)
 	}
@@ -748,7 +794,7 @@ func (m *machine) applyAdjust(o fop) error {
 		m.class("adjust-at-end-height")
 	}
 	m.boundaryClass(p, h)
-	rel, short := p.accrue(h)
+	rel, short := m.accrue(p, h)
 	if short && m.prop == "C06" {
 		return pbt.Failf("C06/budget-short", "pool %s: recorded budget cannot cover the release at h=%d", p.id, h)
 	}
@@ -861,7 +907,7 @@ func (m *machine) applyDestroy(o fop) error {
 		return m.soft("destroy", res)
 	}
 	m.boundaryClass(p, h)
-	rel, short := p.accrue(h)
+	rel, short := m.accrue(p, h)
 	if short && m.prop == "C06" {
 		return pbt.Failf("C06/budget-short", "pool %s: recorded budget cannot cover the release at h=%d", p.id, h)
 	}
@@ -890,7 +936,7 @@ func (m *machine) applyBlock() error {
 	e := chain.NewExpect()
 	for _, p := range m.pools {
 		if p.end == h && !p.refunded {
-			rel, short := p.accrue(h)
+			rel, short := m.accrue(p, h)
 			if short && m.prop == "C06" {
 				return pbt.Failf("C06/budget-short", "pool %s: recorded budget cannot cover the release at its end height %d", p.id, h)
 			}
